@@ -78,6 +78,7 @@ pub struct GenState {
     pub allowances: Vec<(Tok, String, String)>,
     /// scripted operations to emit next (state-targeted steering), front first
     pub script: std::collections::VecDeque<Op>,
+    pub prefix_done: bool,
 }
 
 fn users(cfg: &Cfg) -> Vec<String> {
